@@ -381,12 +381,31 @@ y := { "a":1,"b":2,
 	`a := 1;b := 2;c := a+b*2-(a-(b-1));If A>0 AND not (b<0 OR c==0) { Log(r"raw {{x}}",'single "q"') } ELSE { return 0 }`,
 }
 
+// constructs that the printer spreads over several lines (lists with more than
+// 4, maps with more than 2 entries, function literals) followed by something
+// that must stay attached to them
+var tailHeads = []string{
+	"f([1, 2, 3, 4, 5])", "a.foo([1, 2, 3, 4, 5])", "f({\"a\" : 1, \"b\" : 2, \"c\" : 3})", "a.b.c([1, 2, 3, 4, 5], 6)",
+	"f(1, [1, 2, 3, 4, 5, 6])", "f(func (p) {\n    return p\n})", "f([1, 2, 3, 4])", "f({\"a\" : 1, \"b\" : 2})", "f([[1, 2, 3, 4, 5]])",
+}
+var tailTails = []string{"[0]", ".k", "[0][1]", ".k.l", "(2)", "[0].k", " + 1", " == 2", ""}
+
+func init() {
+	for _, h := range tailHeads {
+		for _, t := range tailTails {
+			corpus = append(corpus, "x := "+h+t+"\ny := 1\n")
+			corpus = append(corpus, "if "+h+t+" {\n    y := 1\n}\n")
+			corpus = append(corpus, "return "+h+t+"\n")
+		}
+	}
+}
+
 func corpusCount(c *core.Ctx) int { return len(corpus) }
 
 func corpusGen(c *core.Ctx, idx int) gcase {
 	ev := 2
-	if idx == 2 {
-		ev = 0 // event processing
+	if idx >= 2 {
+		ev = 0 // event processing / undefined names: the tree comparison decides
 	}
 	return gcase{src: corpus[idx], class: "corpus", eval: ev}
 }
